@@ -96,6 +96,21 @@
 //	            returned with the results, so an assignment on the success paths only is visible as
 //	            the unchanged parameter on the error paths).
 //
+// render      (renderings family: pkg/cantext/encode.go, pkg/canjson/encode.go; readings: Translate/GoSemText.v, last block)
+//	            append-style byte building on a []byte variable v that is a make'd local or a []byte PARAMETER (a
+//	            parameter assigned as a whole is a rebound local, nothing is written through it; rebinding AND
+//	            storing through the same parameter is an error): `v = append(v, x...)` (x a string or []byte),
+//	            `v = append(v, b1, .., bn)` (bytes), `v = strconv.AppendUint(v, u, 10|16)`, `AppendInt(v, i, 10)`,
+//	            `AppendBool(v, b)`, `AppendFloat(v, f, 'g'|'f', -1, 64)`, `v = F(v, ...)` with F a whitelisted
+//	            function returning []byte; all read as go_append = concatenation of CONTENTS (whether the result
+//	            shares v's backing array is not represented). strconv.FormatUint(u, 10|16), FormatInt(i, 10),
+//	            FormatBool = the printers of Gen/RenderNum.v (other bases: error). strconv.FormatFloat /
+//	            AppendFloat with format 'g' or 'f', precision -1, bit size 64 HAVE NO MODEL: ORACLES
+//	            o_strconv_FormatFloat_g / _f : Z -> go_string, leading parameters of every translated function
+//	            that uses them (directly or through a callee), applied to the bit pattern go_math_Float64bits f;
+//	            any other format / precision / bit size: error. Conversions between string types (json.Number),
+//	            string([]byte), []byte(string): the same bytes.
+//
 // Every integer operation is emitted at the static type go/types reports for that expression,
 // against the operators of coq/theories/Translate/GoSem.v, every floating-point operation against
 // those of coq/theories/Translate/GoSemFloat.v (see those files' headers for the reading of Go's
@@ -217,6 +232,18 @@ var whitelist = []struct{ pkg, recv, name string }{
 	{"", "Frame", "String"},
 	{"", "Frame", "UnmarshalString"},
 	{"", "Frame", "JSON"},
+	{"pkg/canjson", "", "uintToJSON"},
+	{"pkg/canjson", "", "intToJSON"},
+	{"pkg/canjson", "", "floatToJSON"},
+	{"pkg/canjson", "signal", "setUnsignedValue"},
+	{"pkg/canjson", "signal", "setSignedValue"},
+	{"pkg/canjson", "signal", "setBoolValue"},
+	{"pkg/canjson", "signal", "set"},
+	{"pkg/cantext", "", "AppendSignalCompact"},
+	{"pkg/cantext", "", "AppendSignal"},
+	{"pkg/cantext", "", "AppendID"},
+	{"pkg/cantext", "", "appendAttributeString"},
+	{"pkg/cantext", "", "AppendSender"},
 }
 
 // ---------------------------------------------------------------------------- errors
@@ -688,9 +715,16 @@ func (t *translator) analyse(key string, from token.Pos) *fn {
 		return nil
 	}
 	mutated := map[*param]token.Pos{}
+	rebound := map[*param]token.Pos{}
 	noteWrite := func(lhs ast.Expr) {
 		if p := paramOf(rootIdent(lhs)); p != nil && (p.g.ptr || p.g.k == kBytes) {
 			if _, isIdent := ast.Unparen(lhs).(*ast.Ident); isIdent {
+				if p.g.k == kBytes && !p.g.ptr {
+					// `buf = append(buf, ...)`: the parameter variable is REBOUND (block1 accepts only the
+					// append-style right-hand sides); nothing is written through it
+					rebound[p] = lhs.Pos()
+					return
+				}
 				t.failf(lhs.Pos(), "assignment to the pointer / []byte parameter %s itself", p.v.Name())
 			}
 			if _, seen := mutated[p]; !seen {
@@ -770,6 +804,8 @@ func (t *translator) analyse(key string, from token.Pos) *fn {
 			if b := builtinOf(info, x); b != "" {
 				switch b {
 				case "len", "make":
+				case "append":
+					t.usesText = true // GoSemText.v go_append
 				case "copy":
 					if len(x.Args) == 2 {
 						noteWrite(x.Args[0])
@@ -794,6 +830,11 @@ func (t *translator) analyse(key string, from token.Pos) *fn {
 			}
 			if _, ok := intrinsicOf(callee); ok {
 				return true // semantics in GoSem*.v; the arguments are ordinary expressions
+			}
+			if o, ok := t.floatFmt(info, x, callee); ok {
+				t.usesText = true
+				f.addOracle(o)
+				return true
 			}
 			if _, ok := textLibOf(callee); ok {
 				t.usesText = true
@@ -833,6 +874,11 @@ func (t *translator) analyse(key string, from token.Pos) *fn {
 		}
 		return true
 	})
+	for p, pos := range rebound {
+		if _, both := mutated[p]; both {
+			t.failf(pos, "[]byte parameter %s is both rebound and written through", p.v.Name())
+		}
+	}
 	if len(mutated) > 1 {
 		t.failf(d.decl.Pos(), "writes through more than one pointer parameter")
 	}
@@ -1156,6 +1202,49 @@ func oracleOf(f *types.Func) (string, bool) {
 	return o, ok
 }
 
+// oracleType: the unicode predicates are Z -> bool; the two shortest-round-trip float formattings
+// (strconv.FormatFloat / AppendFloat with precision -1, bit size 64, format 'g' resp. 'f') are functions
+// from the float64's BIT PATTERN (go_math_Float64bits) to the text - exactly how the hand model
+// Gen/Render.v carries them (segments FloatG bits / FloatF bits, rendered by a Section variable).
+func oracleType(o string) string {
+	if strings.HasPrefix(o, "o_strconv_") {
+		return "Z -> go_string"
+	}
+	return "Z -> bool"
+}
+
+// floatFmt: strconv.FormatFloat(f, c, -1, 64) / strconv.AppendFloat(buf, f, c, -1, 64) with c the
+// constant 'g' or 'f': the oracle's name. Any other format / precision / bit size is an error.
+func (t *translator) floatFmt(info *types.Info, x *ast.CallExpr, callee *types.Func) (string, bool) {
+	k, ok := libKey(callee)
+	if !ok || (k != "strconv.FormatFloat" && k != "strconv.AppendFloat") {
+		return "", false
+	}
+	first := 0
+	if k == "strconv.AppendFloat" {
+		first = 1
+	}
+	if len(x.Args) != first+4 || x.Ellipsis.IsValid() {
+		t.failf(x.Pos(), "%s with %d arguments", k, len(x.Args))
+	}
+	cv := func(i int) int64 {
+		tv := info.Types[x.Args[first+i]]
+		if tv.Value == nil {
+			t.failf(x.Args[first+i].Pos(), "%s with a non-constant format / precision / bit size", k)
+		}
+		n, exact := constant.Int64Val(constant.ToInt(tv.Value))
+		if !exact {
+			t.failf(x.Args[first+i].Pos(), "%s: constant %s", k, tv.Value.ExactString())
+		}
+		return n
+	}
+	f, prec, bits := cv(1), cv(2), cv(3)
+	if prec != -1 || bits != 64 || (f != 'g' && f != 'f') {
+		t.failf(x.Pos(), "%s(.., %q, %d, %d) is outside the subset (only 'g' / 'f' with precision -1 and bit size 64)", k, rune(f), prec, bits)
+	}
+	return "o_strconv_FormatFloat_" + string(rune(f)), true
+}
+
 func (f *fn) addOracle(o string) {
 	for _, x := range f.oracles {
 		if x == o {
@@ -1227,6 +1316,7 @@ type textLib struct {
 var (
 	gInt = gtype{k: kInt, bits: 64, signed: true}
 	gStr = gtype{k: kString}
+	gI64 = gtype{k: kInt, bits: 64, signed: true}
 	gErr = gtype{k: kErr}
 )
 
@@ -1238,6 +1328,12 @@ var textLibs = map[string]textLib{
 	"strconv.Atoi":                {"go_strconv_Atoi", []gtype{gStr}, []gtype{gInt, gErr}, ""},
 	"encoding/hex.DecodeString":   {"go_hex_DecodeString", []gtype{gStr}, []gtype{gByts, gErr}, ""},
 	"strings.Split":               {"go_strings_Split1", nil, nil, "split"},
+	"strconv.FormatUint":          {"go_strconv_FormatUint", []gtype{gU64}, []gtype{gStr}, "fmtint"},
+	"strconv.FormatInt":           {"go_strconv_FormatInt", []gtype{gI64}, []gtype{gStr}, "fmtint"},
+	"strconv.FormatBool":          {"go_strconv_FormatBool", []gtype{gBool}, []gtype{gStr}, ""},
+	"strconv.AppendUint":          {"go_strconv_FormatUint", []gtype{gU64}, []gtype{gByts}, "appint"},
+	"strconv.AppendInt":           {"go_strconv_FormatInt", []gtype{gI64}, []gtype{gByts}, "appint"},
+	"strconv.AppendBool":          {"go_strconv_FormatBool", []gtype{gBool}, []gtype{gByts}, "appbool"},
 	"fmt.Sprintf":                 {"", nil, nil, "sprintf"},
 }
 
@@ -1308,6 +1404,43 @@ func (c *fctx) textCall(x *ast.CallExpr, callee *types.Func, tl textLib) string 
 		}
 		name := map[string]string{"X": "go_fmt_hex_upper", "x": "go_fmt_hex_lower"}[m[2]]
 		return fmt.Sprintf("(%s %s %s)", name, m[1], c.expr(x.Args[1]))
+	}
+	switch tl.special {
+	case "fmtint", "appint", "appbool":
+		// strconv.FormatUint/FormatInt(v, base), AppendUint/AppendInt(buf, v, base), AppendBool(buf, b):
+		// base = the constant 10 (FormatInt: only 10) or 16; Append* = go_append buf (the Format* text)
+		args := x.Args
+		pre, post := "", ""
+		if tl.special != "fmtint" {
+			if len(args) < 1 || c.typeOf(args[0]).k != kBytes || c.typeOf(args[0]).ptr {
+				t.failf(x.Pos(), "%s without a []byte first argument", what)
+			}
+			pre, post = "(go_append "+c.expr(args[0])+" ", ")"
+			args = args[1:]
+		}
+		want := 2
+		if tl.special == "appbool" {
+			want = 1
+		}
+		if len(args) != want {
+			t.failf(x.Pos(), "call of %s with %d arguments", what, len(x.Args))
+		}
+		if have := c.typeOf(args[0]); !have.same(tl.params[0]) || have.ptr {
+			t.failf(args[0].Pos(), "argument of %s has type %s", what, c.info.TypeOf(args[0]))
+		}
+		name := tl.coq
+		if want == 2 {
+			btv := c.info.Types[args[1]]
+			if btv.Value == nil {
+				t.failf(args[1].Pos(), "%s with a non-constant base", what)
+			}
+			b, _ := constant.Int64Val(constant.ToInt(btv.Value))
+			if b != 10 && !(b == 16 && !tl.params[0].signed) {
+				t.failf(args[1].Pos(), "%s with base %s is outside the subset (unsigned: 10, 16; signed: 10)", what, btv.Value.ExactString())
+			}
+			name = fmt.Sprintf("%s_%d", name, b)
+		}
+		return fmt.Sprintf("%s(%s %s)%s", pre, name, c.expr(args[0]), post)
 	}
 	if tl.special != "" {
 		t.failf(x.Pos(), "%s is only accepted as `x := %s(s, \"<one byte>\")`", what, what)
@@ -1689,6 +1822,26 @@ func (c *fctx) expr(e ast.Expr) string {
 				t.failf(x.Pos(), "make with length %s", ntv.Value.ExactString())
 			}
 			return fmt.Sprintf("(bytes_make %d)", n)
+		case "append":
+			// append(a, s...) with s a string / []byte, append(a, b1, .., bn) with bytes: the CONTENTS a ++ ...
+			// (GoSemText.v go_append; whether the result shares a's array is not represented)
+			if len(x.Args) < 2 || c.typeOf(x.Args[0]).k != kBytes || c.typeOf(x.Args[0]).ptr {
+				t.failf(x.Pos(), "append to something that is not a []byte, or without elements")
+			}
+			if x.Ellipsis.IsValid() {
+				if a := c.typeOf(x.Args[1]); len(x.Args) != 2 || (a.k != kString && a.k != kBytes) || a.ptr {
+					t.failf(x.Pos(), "append(a, x...) with x of type %s", c.info.TypeOf(x.Args[1]))
+				}
+				return fmt.Sprintf("(go_append %s %s)", c.expr(x.Args[0]), c.expr(x.Args[1]))
+			}
+			var els []string
+			for _, a := range x.Args[1:] {
+				if g := c.typeOf(a); g.k != kInt || g.bits != 8 || g.signed {
+					t.failf(a.Pos(), "appended element of type %s", c.info.TypeOf(a))
+				}
+				els = append(els, c.expr(a))
+			}
+			return fmt.Sprintf("(go_append %s [%s])", c.expr(x.Args[0]), strings.Join(els, "; "))
 		case "":
 		default:
 			t.failf(x.Pos(), "builtin %s in an expression", builtinOf(c.info, x))
@@ -1696,6 +1849,20 @@ func (c *fctx) expr(e ast.Expr) string {
 		callee := calleeOf(c.info, x)
 		if isErrorf(callee) {
 			return "err_nonnil"
+		}
+		if o, ok := t.floatFmt(c.info, x, callee); ok {
+			first := len(x.Args) - 4
+			if a := c.typeOf(x.Args[first]); a.k != kFloat || a.bits != 64 {
+				t.failf(x.Args[first].Pos(), "formatted value of type %s", c.info.TypeOf(x.Args[first]))
+			}
+			txt := fmt.Sprintf("(%s (go_math_Float64bits %s))", o, c.expr(x.Args[first]))
+			if first == 1 {
+				if b := c.typeOf(x.Args[0]); b.k != kBytes || b.ptr {
+					t.failf(x.Args[0].Pos(), "strconv.AppendFloat without a []byte first argument")
+				}
+				return fmt.Sprintf("(go_append %s %s)", c.expr(x.Args[0]), txt)
+			}
+			return txt
 		}
 		if _, ok := putIntrinsicOf(callee); ok {
 			t.failf(x.Pos(), "%s.%s used as an expression", callee.Pkg().Name(), callee.Name())
@@ -1816,6 +1983,10 @@ func (c *fctx) conversion(x *ast.CallExpr) string {
 		return fmt.Sprintf("(go_f32_of_f64 %s)", c.expr(x.Args[0]))
 	case to.k == kFloat && from.k == kFloat && to.bits == 64:
 		return fmt.Sprintf("(go_f64_of_f32 %s)", c.expr(x.Args[0]))
+	case (to.k == kString || to.k == kBytes) && (from.k == kString || from.k == kBytes) && !to.ptr && !from.ptr:
+		// string <-> named string types (json.Number), string([]byte), []byte(string): the same bytes
+		// (the copy a conversion makes is not observable without aliasing)
+		return c.expr(x.Args[0])
 	case to.k == kBool && from.k == kBool, to.k == kArray && from.k == kArray && to.n == from.n && !to.ptr && !from.ptr:
 		return c.expr(x.Args[0])
 	}
@@ -2043,6 +2214,9 @@ func (c *fctx) checkRoot(lhs ast.Expr) {
 		o = c.info.Defs[id]
 	}
 	for _, p := range c.f.params {
+		if _, bare := ast.Unparen(lhs).(*ast.Ident); bare && types.Object(p.v) == o && p.g.k == kBytes && !p.g.ptr && p != c.f.mut {
+			return // rebinding of a []byte parameter (append style; block1 checks the right-hand side)
+		}
 		if types.Object(p.v) == o && (p.g.ptr || p.g.k == kBytes) && p != c.f.mut {
 			c.t.failf(lhs.Pos(), "internal: write through %s not found by the analysis", id.Name)
 		}
@@ -2069,6 +2243,38 @@ func (c *fctx) ownedBytes(e ast.Expr, what string) {
 	if _, ok := c.vars[o]; !ok {
 		c.t.failf(e.Pos(), "%s %s, which is not a local variable", what, id.Name)
 	}
+}
+
+// appendStyle: `x = append(x, ...)`, `x = strconv.AppendXxx(x, ...)`, `x = F(x, ...)` with F a whitelisted
+// function returning []byte: the []byte variable x (local or parameter) is rebound to a value computed
+// from its own old value, which is dead afterwards - no second live reference to the array arises.
+func (c *fctx) appendStyle(lhs, rhs ast.Expr) bool {
+	id, ok := ast.Unparen(lhs).(*ast.Ident)
+	if !ok || c.typeOf(lhs).k != kBytes {
+		return false
+	}
+	call, ok := ast.Unparen(rhs).(*ast.CallExpr)
+	if !ok || len(call.Args) == 0 {
+		return false
+	}
+	a0, ok := ast.Unparen(call.Args[0]).(*ast.Ident)
+	if !ok || c.info.Uses[a0] == nil || c.info.Uses[a0] != c.info.Uses[id] {
+		return false
+	}
+	if builtinOf(c.info, call) == "append" {
+		return true
+	}
+	callee := calleeOf(c.info, call)
+	if callee == nil {
+		return false
+	}
+	if k, ok := libKey(callee); ok && strings.HasPrefix(k, "strconv.Append") {
+		return true
+	}
+	if g := c.t.fns[funcKey(callee)]; g != nil && g.mut == nil && len(g.results) == 1 && g.results[0].k == kBytes {
+		return true
+	}
+	return false
 }
 
 // freshBytes: a []byte local may only be bound to a freshly made slice.
@@ -2440,7 +2646,9 @@ func (c *fctx) block1(list []ast.Stmt, ind int, k cont) string {
 			return let(c.declare(o), val)
 		case token.ASSIGN:
 			c.checkRoot(lhs)
-			c.freshBytes(lhs.Pos(), c.typeOf(lhs), s.Rhs[0])
+			if !c.appendStyle(lhs, s.Rhs[0]) {
+				c.freshBytes(lhs.Pos(), c.typeOf(lhs), s.Rhs[0])
+			}
 			val := c.expr(s.Rhs[0])
 			name, nv := c.store(lhs, val)
 			return let(name, nv)
@@ -2889,7 +3097,7 @@ func (t *translator) translate(f *fn) {
 	var ps []string
 	for _, o := range f.oracles {
 		c.taken[o] = true
-		ps = append(ps, fmt.Sprintf("(%s : Z -> bool)", o))
+		ps = append(ps, fmt.Sprintf("(%s : %s)", o, oracleType(o)))
 	}
 	for _, p := range f.params {
 		p.name = c.declare(p.v)
